@@ -36,6 +36,15 @@ shallow-water equation set, histories).  Tie: `harness/props/C11.py`.
   divergence).
 * the frames live on the executable `tree_math` vectors: records with `n` levels that carry the tracer
   keys the class looks up (`PEQ`); shallow water is `Dino.DynamicsSW` (`sw_*`).
+* **the pair `Mk ⊇ S`** of `OpsClosed h Mk S` is a parameter of every theorem.  On an unpadded layout
+  `Mk` = the modal mask, `S` = the mask below the clipped wavenumber.  On a layout whose
+  total-wavenumber axis is PADDED (`base_shape_multiple`, device meshes) `OpsClosed` is false for
+  `Mk` = mask — the raw `sec_lat_d_dlat_cos2` writes into the first padding column — and holds for
+  `Mk` := mask + first padding column of the `l` axis, `S` := mask below the clipped wavenumber: the
+  theorems apply with that choice (`toy3p_closed`, `toy3p_mask_not_closed`, `toyPEp_respects`,
+  `toyPEp_history` below; `harness/props/C11.py` validates every hypothesis for exactly this pair on
+  `base_shape_multiple` grids).  The orography hypothesis is `eq.orography ∈ Mk` (masked orography,
+  clipped or not; on a padded layout it may even be non-zero on that padding column).
 -/
 set_option linter.unusedSectionVars false
 
@@ -49,8 +58,9 @@ variable {K M N : Type} [Field K] [AddCommGroup M] [Module K M]
 variable {Mk S Z : Submodule K M} (eq : PrimitiveEquations K M N)
 
 /-- **T11.1 (dry class)** for EVERY state the explicit tendencies lie in `S`: zero outside the
- modal mask and at the clipped top total wavenumber (every pre-clip term is masked, the final
- `clip_wavenumbers` maps masked fields into `S`) -/
+ modal mask and at the clipped top total wavenumber (every pre-clip term lies in `Mk` — the mask,
+ plus the first padding column on a layout with a padded total-wavenumber axis —, the final
+ `clip_wavenumbers` maps `Mk` into `S`); the orography is any field of `Mk` -/
 theorem explicitTerms_mem [BEq K] (H : OpsClosed eq.ops Mk S) (ho : eq.orography ∈ Mk)
     (s : State M) : StateAll (· ∈ S) (eq.explicitTerms s) := by
   unfold PrimitiveEquations.explicitTerms
@@ -610,7 +620,9 @@ theorem pe_inverse_spec (eq : PrimitiveEquations K M N) (H : OpsClosed eq.ops Mk
     rfl⟩
 
 /-- **the closure hypotheses of T11.2 hold for every class** (clock frame): under the structural
- hypotheses on the horizontal record, for any supplied matrix inverses of the right size, on the
+ hypotheses on the horizontal record (`OpsClosed` for a pair `Mk ⊇ S`: `Mk` = mask on unpadded
+ layouts, mask + first padding column on padded ones — `toyPEp_respects`), for orography in `Mk`,
+ for any supplied matrix inverses of the right size (`InvShaped`: at least `2n+1` rows), on the
  records with `n` levels that carry the tracer keys the class needs (`NeedsKeys cls ks`; the frame
  predicate replaces the hypothesis "`explicit_terms` never raises", which is false for the moist
  classes) -/
@@ -1453,5 +1465,301 @@ example : ∃ s', runHistory (peImEx .time toyPE1 toyInv1)
 end uniformExample
 
 end examples
+
+/-! ## second review: two layers with the exact `l = 0` inverse, the cloud class, padded layouts -/
+section review2
+open Dino.Invariants.Toy Dino.Dynamics.Toy Dino.Dynamics.Toy.J
+
+theorem allP_pair {T : Submodule ℚ J} (a b : J) (ha : a ∈ T) (hb : b ∈ T) : AllP (· ∈ T) [a, b] := by
+  intro x hx
+  simp only [List.mem_cons, List.not_mem_nil, or_false] at hx
+  rcases hx with rfl | rfl <;> assumption
+
+/-! ### `Inv0Ok` for TWO layers (review 2, N4) -/
+
+/-- the `l = 0` implicit matrix of the two-layer toy equation (uneven layers, varying reference
+ temperature): lower block-triangular with identity diagonal because the Laplacian eigenvalue of
+ total wavenumber zero vanishes -/
+theorem toyPE_matrix (η : ℚ) :
+    toyPE.implicitTermMatrix η 0 = [[1, 0, 0, 0, 0], [0, 1, 0, 0, 0],
+      [η * (3610 / 63), η * (20 / 9), 1, 0, 0], [η * (370 / 9), η * (1700 / 63), 0, 1, 0],
+      [η * (1 / 3), η * (2 / 3), 0, 0, 1]] := by
+  simp [PrimitiveEquations.implicitTermMatrix, Implicit.implicitMatrix, toyPE, toy3, Vert.ds,
+    Vert.alpha, Sigma.thickness, Sigma.diffs, Sigma.sigmaRatios, Sigma.geopotentialWeights,
+    Sigma.geoOffDiag, PrimitiveEquations.temperatureImplicitWeights, Implicit.hMatrix,
+    Implicit.hEntry, Implicit.hK, Implicit.hK0, Implicit.tril, Implicit.eyeRow, Implicit.zeros,
+    List.range, List.range.loop]
+  norm_num
+
+/-- the exact inverse of the two-layer `l = 0` matrix, for every `η` (for every other `l` any
+ matrix of the right size: here the same one) -/
+def toyInv2 : ℚ → ℕ → List (List ℚ) :=
+  fun η _ => [[1, 0, 0, 0, 0], [0, 1, 0, 0, 0],
+    [-(η * (3610 / 63)), -(η * (20 / 9)), 1, 0, 0], [-(η * (370 / 9)), -(η * (1700 / 63)), 0, 1, 0],
+    [-(η * (1 / 3)), -(η * (2 / 3)), 0, 0, 1]]
+
+theorem toyInv2_shaped : InvShaped toyPE 2 toyInv2 := by
+  intro η l _
+  simp [toyInv2]
+
+/-- **`Inv0Ok` on a two-layer equation object, for every `η`** (review 2, N4): the contract of
+ `pe_respects_mean00` / `pe_respects_uniform` on `numpy.linalg.inv` is satisfiable beyond one layer -/
+theorem toyInv2_ok (η : ℚ) : Inv0Ok toyPE 2 η (toyInv2 η 0) where
+  rows := rfl
+  cols := by
+    intro r hr
+    simp only [toyInv2, List.mem_cons, List.not_mem_nil, or_false] at hr
+    rcases hr with rfl | rfl | rfl | rfl | rfl <;> rfl
+  right := by
+    intro v hv
+    match v, hv with
+    | [a, b, c, d, e], _ =>
+      rw [toyPE_matrix]
+      simp only [Sigma.matvec, Sigma.mulv, toyInv2, List.map_cons, List.map_nil,
+        List.zipWith_cons_cons, List.zipWith_nil_right, List.sum_cons, List.sum_nil]
+      congr 1
+      · ring
+      · congr 1
+        · ring
+        · congr 1
+          · ring
+          · congr 1
+            · ring
+            · congr 1
+              ring
+
+/-- a two-layer state in `S` with NON-zero mean vorticity `(2, 1)` and divergence `(3, -2)` -/
+def toyS2 : StateWithTime ℚ J :=
+  { state := { vorticity := [⟨2, 1, 2, 0, 0, 0⟩, ⟨1, 0, 1, 0, 0, 0⟩]
+               divergence := [⟨3, 1 / 2, 0, 0, 0, 0⟩, ⟨-2, 0, -1, 0, 0, 0⟩]
+               temperatureVariation := [⟨1, 0, 1, 0, 0, 0⟩, ⟨2, 1, 0, 0, 0, 0⟩]
+               logSurfacePressure := ⟨1 / 2, 1 / 3, 0, 0, 0, 0⟩ }
+    simTime := 0 }
+
+theorem toyS2_PEQ : PEQ SJ 2 [] toyS2 := by
+  refine ⟨⟨allP_pair _ _ ⟨rfl, rfl, rfl⟩ ⟨rfl, rfl, rfl⟩, allP_pair _ _ ⟨rfl, rfl, rfl⟩ ⟨rfl, rfl, rfl⟩,
+    allP_pair _ _ ⟨rfl, rfl, rfl⟩ ⟨rfl, rfl, rfl⟩, ⟨rfl, rfl, rfl⟩, ?_⟩, ⟨rfl, rfl, rfl, rfl, ?_⟩⟩
+  · intro kv hkv; cases hkv
+  · intro kv hkv; cases hkv
+
+/-- **`(ζ, δ)₀₀` along a concrete TWO-layer trajectory** (review 2, N4): the mean divergence `-2` of
+ the lower layer of `toyS2` survives a filtered Euler step and a CN-RK2 step of
+ `PrimitiveEquationsWithTime` with the exact inverse of the `5 × 5` matrix of `l = 0` -/
+theorem toyPE_two_layer_mean00 : ∃ s', runHistory (peImEx .time toyPE toyInv2)
+      [⟨.bfe, 1 / 10, [TM.lift (filterPE toy3 [1, 1 / 2, 1 / 4])]⟩, ⟨.cnrk2, 1 / 5, []⟩] (.val toyS2)
+        = some (.val s') ∧
+    PEQ SJ 2 [] s' ∧ (s'.state.divergence.getD 1 0).c0 = -2 := by
+  obtain ⟨u, hu⟩ : ∃ u, runHistory (peImEx .time toyPE toyInv2)
+      [⟨.bfe, 1 / 10, [TM.lift (filterPE toy3 [1, 1 / 2, 1 / 4])]⟩, ⟨.cnrk2, 1 / 5, []⟩] (.val toyS2)
+        = some u := ⟨_, rfl⟩
+  obtain ⟨s', e, hQ, hm⟩ := pe_mean00_after_any_history (ℓ := c0ℓ) .time trivial toyPE toy3_closed
+    toyPE_oro toyPE_vert toy3_mode0 toyInv2 toyInv2_shaped toyInv2_ok (by norm_num) .divergence 1 _
+    (by
+      intro en hen g hg
+      simp only [List.mem_cons, List.not_mem_nil, or_false] at hen
+      rcases hen with rfl | rfl
+      · simp only [List.mem_cons, List.not_mem_nil, or_false] at hg
+        subst hg
+        exact filterPE_filterOk_mean00 toyPE toy3_closed toy3_mode0 _ rfl _ _
+      · simp at hg)
+    toyS2 toyS2_PEQ u hu
+  exact ⟨s', by rw [hu, e], hQ, hm⟩
+
+/-! ### the cloud class: three tracer keys (review 2, N4) -/
+
+/-- the keys `MoistPrimitiveEquationsWithCloudMoisture` looks up -/
+def toyKeysCloud : List String := [specificHumidityKey, cloudWaterKey, cloudIceKey]
+
+theorem toyKeysCloud_needs : NeedsKeys .cloud toyKeysCloud :=
+  ⟨List.mem_cons_self, List.mem_cons_of_mem _ List.mem_cons_self,
+    List.mem_cons_of_mem _ (List.mem_cons_of_mem _ List.mem_cons_self)⟩
+
+/-- a moving two-layer state in `S` carrying humidity and the two condensate tracers -/
+def toyS0c : StateWithTime ℚ J :=
+  { toyS0 with
+    state := { toyS0.state with
+      tracers := [(specificHumidityKey, [⟨1 / 100, 0, 0, 0, 0, 0⟩, ⟨1 / 50, 1 / 100, 0, 0, 0, 0⟩]),
+                  (cloudWaterKey, [⟨1 / 1000, 1 / 2000, 0, 0, 0, 0⟩, ⟨0, 0, 1 / 1000, 0, 0, 0⟩]),
+                  (cloudIceKey, [⟨1 / 4000, 0, 0, 0, 0, 0⟩, ⟨1 / 5000, 0, 1 / 3000, 0, 0, 0⟩])] } }
+
+theorem toyS0c_PEQ : PEQ SJ 2 toyKeysCloud toyS0c := by
+  refine ⟨⟨toyS0_PEQ.mem.1, toyS0_PEQ.mem.2.1, toyS0_PEQ.mem.2.2.1, toyS0_PEQ.mem.2.2.2.1, ?_⟩,
+    ⟨rfl, rfl, rfl, rfl, ?_⟩⟩
+  · intro kv hkv
+    simp only [toyS0c, List.mem_cons, List.not_mem_nil, or_false] at hkv
+    rcases hkv with rfl | rfl | rfl <;> exact allP_pair _ _ ⟨rfl, rfl, rfl⟩ ⟨rfl, rfl, rfl⟩
+  · intro kv hkv
+    simp only [toyS0c, List.mem_cons, List.not_mem_nil, or_false] at hkv
+    rcases hkv with rfl | rfl | rfl <;> rfl
+
+/-- **a `Respects` instance for the cloud class** (review 2, N4): `NeedsKeys .cloud` with the three
+ tracer keys -/
+theorem toyPE_cloud_respects :
+    Respects (clockObs SJ 2 toyKeysCloud).frame 1 (peImEx .cloud toyPE toyInv) :=
+  pe_respects_clock .cloud toyPE toy3_closed toyPE_oro toyPE_vert toyKeysCloud_needs toyInv
+    toyInv_shaped
+
+/-- the cloud explicit terms ARE defined on the frame, and are NOT when a condensate key is missing
+ (the moist frame `toyS0` carries humidity only) -/
+example : (∃ r, explicitOf .cloud toyPE toyS0c = some r ∧ Shaped 2 toyKeysCloud r.state) ∧
+    explicitOf .cloud toyPE toyS0 = none :=
+  ⟨explicitOf_defined .cloud toyPE toyPE_vert toyKeysCloud_needs toyS0c toyS0c_PEQ.sh, rfl⟩
+
+/-- **the cloud class, a concrete history**: a filtered Euler step and a CN-RK2 step of
+ `MoistPrimitiveEquationsWithCloudMoisture` from `toyS0c`: no exception, a two-level record in `S`
+ with the three keys, the clock advanced by `1/10 + 1/5` -/
+theorem toyPE_cloud_history : ∃ s', runHistory (peImEx .cloud toyPE toyInv)
+      [⟨.bfe, 1 / 10, [toyFilter]⟩, ⟨.cnrk2, 1 / 5, []⟩] (.val toyS0c) = some (.val s') ∧
+    PEQ SJ 2 toyKeysCloud s' ∧ s'.simTime = 3 + 3 / 10 := by
+  obtain ⟨u, hu⟩ : ∃ u, runHistory (peImEx .cloud toyPE toyInv)
+      [⟨.bfe, 1 / 10, [toyFilter]⟩, ⟨.cnrk2, 1 / 5, []⟩] (.val toyS0c) = some u := ⟨_, rfl⟩
+  obtain ⟨s', e, hQ, ht⟩ := pe_inv_after_any_history .cloud toyPE toy3_closed toyPE_oro toyPE_vert
+    toyKeysCloud_needs toyInv toyInv_shaped (by norm_num) _
+    (by
+      intro en hen g hg
+      simp only [List.mem_cons, List.not_mem_nil, or_false] at hen
+      rcases hen with rfl | rfl
+      · simp only [List.mem_cons, List.not_mem_nil, or_false] at hg
+        subst hg
+        exact filterPE_filterOk_clock toyPE toy3_closed _
+      · simp at hg)
+    toyS0c toyS0c_PEQ u hu
+  refine ⟨s', by rw [hu, e], hQ, ?_⟩
+  rw [ht]
+  simp only [historyAdv, Scheme.adv, clockRate, toyS0c, toyS0]
+  norm_num
+
+/-! ### padded layouts: `Mk` = mask + first padding column (review 2, N3)
+
+On a layout whose total-wavenumber axis is padded (`FastSphericalHarmonics(base_shape_multiple=…)`,
+device meshes) the raw `sec_lat_d_dlat_cos2` / `cos_lat_d_dlat` write the top resolved coefficient
+into the FIRST padding column (`_derivative_recurrence_weights` zeroes `b[:, -1]`, the last column of
+the PADDED layout; C09 `fastDD_iota_colL`, C07's domain statement).  So `OpsClosed h Mk S` is FALSE
+there for `Mk` = the modal mask, and TRUE for
+
+  `Mk` := mask + first padding column,   `S` := mask below the clipped wavenumber
+
+(`clip_wavenumbers` zeroes the padding, the Laplacian eigenvalues vanish there, `to_nodal` ignores it).
+Every theorem of this file is stated for an arbitrary pair `Mk ⊇ S`, so all of them apply to padded
+layouts with this choice; `harness/props/C11.py` validates every hypothesis for exactly this pair on
+`base_shape_multiple` grids (`_mk`, `PADDED_TABLE`), with the orography non-zero on the padding
+column.  The toy grid `toy3p` below has the same shape: `to_modal` lands in the mask
+`{cxy = cyy = 0}`, `cyy` plays the first padding column, the latitude derivative writes the top
+resolved coefficient `cxx` there. -/
+
+/-- `to_modal` of the padded toy grid: nothing on the padding (`cxy`, `cyy`) -/
+def maskP (a : J) : J := ⟨a.c0, a.cx, a.cy, a.cxx, 0, 0⟩
+
+/-- the raw latitude derivative of the padded toy grid: the top resolved coefficient `cxx` leaks into
+ the first padding column `cyy`; what is on the padding is not propagated further -/
+def dyP (a : J) : J := ⟨0, 0, a.cy, 0, a.cxy, a.cxx⟩
+
+/-- the toy grid with a padded total-wavenumber axis -/
+def toy3p : HOps ℚ J J :=
+  { toy3 with toModal := maskP, cosLatDDlat := dyP, secLatDDlatCos2 := dyP }
+
+/-- the modal mask of `toy3p` (the image of `to_modal`): a proper submodule of `MkJ` -/
+def MaskJ : Submodule ℚ J where
+  carrier := {a | a.cxy = 0 ∧ a.cyy = 0}
+  add_mem' := by
+    intro a b (ha : a.cxy = 0 ∧ a.cyy = 0) (hb : b.cxy = 0 ∧ b.cyy = 0)
+    show (a + b).cxy = 0 ∧ (a + b).cyy = 0
+    simp [add_def, ha.1, ha.2, hb.1, hb.2]
+  zero_mem' := ⟨rfl, rfl⟩
+  smul_mem' := by
+    intro c a (ha : a.cxy = 0 ∧ a.cyy = 0)
+    show (c • a).cxy = 0 ∧ (c • a).cyy = 0
+    simp [smul_def, ha.1, ha.2]
+
+/-- `S ⊊ mask ⊊ Mk ⊊ J`: `x²` is masked but clipped, `y²` (the padding column) is in `Mk` but not
+ in the mask, `xy` is outside `Mk` -/
+theorem MaskJ_between : (∀ x ∈ SJ, x ∈ MaskJ) ∧ (∀ x ∈ MaskJ, x ∈ MkJ) ∧
+    (⟨0, 0, 0, 1, 0, 0⟩ : J) ∈ MaskJ ∧ (⟨0, 0, 0, 1, 0, 0⟩ : J) ∉ SJ ∧
+    (⟨0, 0, 0, 0, 0, 1⟩ : J) ∈ MkJ ∧ (⟨0, 0, 0, 0, 0, 1⟩ : J) ∉ MaskJ ∧
+    (⟨0, 0, 0, 0, 1, 0⟩ : J) ∉ MkJ := by
+  refine ⟨fun x hx => ⟨hx.2.1, hx.2.2⟩, fun x hx => hx.1, ⟨rfl, rfl⟩, SJ_proper.2.1, rfl, ?_,
+    SJ_proper.2.2⟩
+  intro h
+  exact absurd h.2 (by simp)
+
+/-- **`OpsClosed` on the padded toy grid with `Mk` = mask + first padding column** -/
+theorem toy3p_closed : OpsClosed toy3p MkJ SJ where
+  S_le := fun x hx => hx.2.1
+  toModal_mem := fun _ => rfl
+  dDlon_mem := fun x (hx : x.cxy = 0) => by show (dx x).cxy = 0; simp [dx, hx]
+  secLat_mem := fun x (hx : x.cxy = 0) => by show (dyP x).cxy = 0; simp [dyP, hx]
+  laplacian_mem := fun x (hx : x.cxy = 0) => by show (lap x).cxy = 0; simp [lap, hx]
+  clip_mem := fun x _ => ⟨rfl, rfl, rfl⟩
+  laplacian_S := toy3_closed.laplacian_S
+  lproj_S := toy3_closed.lproj_S
+
+/-- **with `Mk` = the mask the hypothesis is FALSE on the padded toy grid**: the latitude derivative
+ of the masked field `x²` has a non-zero coefficient on the padding column -/
+theorem toy3p_mask_not_closed : ¬ OpsClosed toy3p MaskJ SJ := by
+  intro H
+  have h := (H.secLat_mem ⟨0, 0, 0, 1, 0, 0⟩ ⟨rfl, rfl⟩).2
+  exact absurd h (by show ¬ ((1 : ℚ) = 0); norm_num)
+
+/-- `to_modal` of the padded toy grid lands in the mask itself -/
+theorem toy3p_toModal_mask (z : J) : toy3p.toModal z ∈ MaskJ := ⟨rfl, rfl⟩
+
+/-- the two-layer toy equation on the padded grid; its orography `1 + 2x + 3y + 4x² + 5y²` lies in
+ `Mk` but NOT in the mask (it is non-zero on the padding column) -/
+def toyPEp : PrimitiveEquations ℚ J J := { toyPE with ops := toy3p }
+
+theorem toyPEp_oro : toyPEp.orography ∈ MkJ ∧ toyPEp.orography ∉ MaskJ := by
+  refine ⟨rfl, fun h => ?_⟩
+  exact absurd h.2 (by show ¬ ((5 : ℚ) = 0); norm_num)
+
+theorem toyPEp_vert : VertShaped toyPEp 2 := ⟨by decide, rfl, rfl, rfl⟩
+
+/-- **the theorems apply on a padded layout** (review 2, N3): the closure hypotheses of T11.2 for the
+ moist class on `toy3p`, with `Mk` = mask + first padding column (where `Mk` = mask would not do:
+ `toy3p_mask_not_closed`) and orography on the padding column -/
+theorem toyPEp_respects :
+    Respects (clockObs SJ 2 toyKeys).frame 1 (peImEx .moist toyPEp toyInv) :=
+  pe_respects_clock .moist toyPEp toy3p_closed toyPEp_oro.1 toyPEp_vert List.mem_cons_self toyInv
+    (by intro η l _; simp [toyInv])
+
+/-- for EVERY state — also one that is non-zero on the padding — the explicit tendencies of the
+ padded toy equation lie in `S` (T11.1) -/
+example (s : State J) : StateAll (· ∈ SJ) (toyPEp.explicitTerms s) :=
+  explicitTerms_mem toyPEp toy3p_closed toyPEp_oro.1 s
+
+/-- **a concrete history on the padded toy grid**: a filtered Euler step and a CN-RK2 step of the
+ moist class from `toyS0`; the result is a two-level record in `S` (nothing on the padding, nothing
+ at the clipped wavenumber), clock `3 + 3/10` -/
+theorem toyPEp_history : ∃ s', runHistory (peImEx .moist toyPEp toyInv)
+      [⟨.bfe, 1 / 10, [TM.lift (filterPE toy3p [1, 1 / 2, 1 / 4])]⟩, ⟨.cnrk2, 1 / 5, []⟩]
+        (.val toyS0) = some (.val s') ∧
+    PEQ SJ 2 toyKeys s' ∧ s'.simTime = 3 + 3 / 10 := by
+  obtain ⟨u, hu⟩ : ∃ u, runHistory (peImEx .moist toyPEp toyInv)
+      [⟨.bfe, 1 / 10, [TM.lift (filterPE toy3p [1, 1 / 2, 1 / 4])]⟩, ⟨.cnrk2, 1 / 5, []⟩]
+        (.val toyS0) = some u := ⟨_, rfl⟩
+  obtain ⟨s', e, hQ, ht⟩ := pe_inv_after_any_history .moist toyPEp toy3p_closed toyPEp_oro.1
+    toyPEp_vert List.mem_cons_self toyInv (by intro η l _; simp [toyInv]) (by norm_num) _
+    (by
+      intro en hen g hg
+      simp only [List.mem_cons, List.not_mem_nil, or_false] at hen
+      rcases hen with rfl | rfl
+      · simp only [List.mem_cons, List.not_mem_nil, or_false] at hg
+        subst hg
+        exact filterPE_filterOk_clock toyPEp toy3p_closed _
+      · simp at hg)
+    toyS0 toyS0_PEQ u hu
+  refine ⟨s', by rw [hu, e], hQ, ?_⟩
+  rw [ht]
+  simp only [historyAdv, Scheme.adv, clockRate, toyS0]
+  norm_num
+
+/-- the padding column is really written to on the way: the raw divergence of a masked wind on
+ `toy3p` leaves the mask (and stays in `Mk`) -/
+example : toy3p.divCosLat false (⟨0, 1, 0, 0, 0, 0⟩, ⟨0, 0, 0, 3, 0, 0⟩) ∈ MkJ ∧
+    toy3p.divCosLat false (⟨0, 1, 0, 0, 0, 0⟩, ⟨0, 0, 0, 3, 0, 0⟩) ∉ MaskJ := by
+  refine ⟨toy3p_closed.divCosLat_mem rfl rfl, fun h => ?_⟩
+  have h2 := h.2
+  simp [HOps.divCosLat, toy3p, toy3, toy, dyP, dx, add_def] at h2
+
+end review2
 
 end Dino.C11
